@@ -56,10 +56,12 @@ def run(chk):
             cnt = counts(c.model_calls)
         total = sum(cnt)
         for k in range(1, total + 1):
-            ops.append("zoo-write %s %d %d %s %d" % (c.zoo.name, c.max, c.codec, c.go_ops, k)); meta.append((c, k, cnt))
+            # three legal ways for an io.Writer to fail: (0, err), (len/2, err), (len, err)
+            for mode in "zhf":
+                ops.append("zoo-write %s %d %d %s %d:%s" % (c.zoo.name, c.max, c.codec, c.go_ops, k, mode)); meta.append((c, k, cnt, mode))
     res = common.chunked_parallel(pair.impl, ops, workers=8, chunk=200)
     nontrivial = set()
-    for (c, k, cnt), r in zip(meta, res):
+    for (c, k, cnt, mode), r in zip(meta, res):
         got = r.split(" ")[1] if " " in r else r
         # predicted: API calls before the one containing write k complete with their write counts; that call reports err
         acc, idx = 0, 0
@@ -71,15 +73,15 @@ def run(chk):
         gl = got.split(";")
         ok = (len(gl) == idx + 1 and gl[idx] == "err" and counts(";".join(gl[:idx])) == cnt[:idx]) if idx > 0 else (got == "err")
         if not ok:
-            prop_fail.append({"case": c.key()[:2000] + " failAt=%d" % k, "key": {"call_index": idx, "outcome": gl[-1][:20], "codec": c.codec},
+            prop_fail.append({"case": c.key()[:2000] + " failAt=%d:%s" % (k, mode), "key": {"call_index": idx, "outcome": gl[-1][:20], "codec": c.codec, "mode": mode},
                               "clause": "sink failure at write %d not reported by API call #%d (got %s)" % (k, idx, got[-60:]), "got": got[:300], "want": "calls[0..%d) complete, call %d returns err" % (idx, idx)})
         else:
-            nontrivial.add((c.m_ops, c.codec, k))
+            nontrivial.add((c.m_ops, c.codec, k, mode))
     cov.update({
         "obligations": pr["obligations"], "discharged": pr["discharged"], "axioms": pr["axioms"],
         "checker_cmd": "cd lean && lake build %s" % MODULE, "trusted_base": TRUSTED_BASE, "forbidden_constructs": pr["forbidden_constructs"],
         "evaluations": len(ops), "distinct_nontrivial": len(nontrivial), "exhaustive": True, "workloads": len(cases),
-        "rule": "for every workload (5 structs x 3 codecs, histories with several row groups, empty writes, pending records) the sink fails at its k-th Write call for EVERY k in 1..total (exhaustive); the API call predicted by the model's per-call write list must return a non-nil error, earlier calls complete with exactly the model's number of writes, nothing panics; non-trivial = distinct (workload, k) reported correctly",
+        "rule": "for every workload (5 structs x 3 codecs, histories with several row groups, empty writes, pending records) the sink fails at its k-th Write call for EVERY k in 1..total (exhaustive), in each of the three ways an io.Writer may fail: (0, err), (len/2, err) after taking half of the bytes, (len, err) after taking all of them; the API call predicted by the model's per-call write list must return a non-nil error, earlier calls complete with exactly the model's number of writes, nothing panics; non-trivial = distinct (workload, k) reported correctly",
         "samples": [ops[0][:200], ops[len(ops) // 2][:200]],
         "tie": "exact: number of sink writes per API call = model's runWriter; outcome per failing index = model's failingCall",
         "tie_disagreements": len(tie_breaks), "property_failures_on_impl": len(prop_fail),
